@@ -114,13 +114,16 @@ TimesParts(args) ==
              ELSE IF x.op = "times" THEN TimesParts(rest \o x.a)
              ELSE LET p == TimesParts(rest) IN [p EXCEPT !.fs = <<x>> \o @]
 
-SimpTimes(args) ==
+\* The code sorts the factors by node id, so where the collected constant ends up depends on what was
+\* created first in the environment: constLast = TRUE puts it last (symbols older than constants), FALSE
+\* first.  The position matters to walk_plus, which only looks at the LAST factor of a product.
+SimpTimes(args, constLast) ==
     LET ty == TyF(args[1])
         p == TimesParts(args)
         k == NumC(ty, p.c)
     IN  IF p.zero \/ IsZero(k) THEN NumC(ty, <<0, 1>>)
         ELSE IF p.fs = <<>> THEN k
-        ELSE MkNary("times", IF IsOne(k) THEN p.fs ELSE Append(p.fs, k), k)
+        ELSE MkNary("times", IF IsOne(k) THEN p.fs ELSE IF constLast THEN Append(p.fs, k) ELSE <<k>> \o p.fs, k)
 
 SimpMinus(l, r) ==
     CASE IsC(l) /\ IsC(r) -> NumC(TyF(l), QSub(QOf(l), QOf(r)))
@@ -215,9 +218,9 @@ SimpQuant(t, body) ==
 StringOps == {"str_length", "str_concat", "str_contains", "str_indexof", "str_replace", "str_substr",
               "str_prefixof", "str_suffixof", "str_to_int", "int_to_str", "str_charat"}
 
-RECURSIVE Simp(_)
-Simp(t) ==
-    LET args == [j \in 1..Len(t.a) |-> Simp(t.a[j])]
+RECURSIVE SimpM(_, _)
+SimpM(t, constLast) ==
+    LET args == [j \in 1..Len(t.a) |-> SimpM(t.a[j], constLast)]
         op == t.op
     IN
     CASE op \in {"symbol"} \cup ConstOps -> t
@@ -230,7 +233,7 @@ Simp(t) ==
       [] op = "le" -> SimpLe(args[1], args[2])
       [] op = "lt" -> SimpLt(args[1], args[2])
       [] op = "plus" -> SimpPlus(args)
-      [] op = "times" -> SimpTimes(args)
+      [] op = "times" -> SimpTimes(args, constLast)
       [] op = "minus" -> SimpMinus(args[1], args[2])
       [] op = "div" -> SimpDiv(args[1], args[2])
       [] op = "pow" -> SimpPow(args[1], args[2])
@@ -242,5 +245,8 @@ Simp(t) ==
       [] op = "array_store" -> SimpStore(args[1], args[2], args[3])
       [] op = "array_value" -> MkArray(t.ty, args[1], [j \in 1..((Len(args) - 1) \div 2) |-> <<args[2 * j], args[2 * j + 1]>>])
       [] OTHER -> SimpBV(t, args)
+
+Simp(t) == SimpM(t, TRUE)
+SimpAlt(t) == SimpM(t, FALSE)
 
 =============================================================================
